@@ -1,0 +1,12 @@
+//go:build verif
+
+package gc
+
+import "context"
+
+// RunOnce runs one garbage-collection pass immediately (verification harness:
+// "GC at an arbitrary point of the history"; production code only offers the
+// wall-clock RunGCLoop).
+func RunOnce(ctx context.Context, collector PartGarbageCollector) error {
+	return collector.(*partGC).runGCWithContext(ctx)
+}
